@@ -68,12 +68,25 @@ def register(prop):
          "death instant compared in exact virtual time (tolerance 3ms + 0.1% of the maximum timeout); non-trivial = run reached a verdict; distinct = distinct (config, script) tuples",
          assumptions=["cluster size n for the timeout = number of known nodes incl. observer and suspect", "tolerance covers the library's millisecond floor and its 1/1000 node-scale truncation"])
 
+    prop("C19", [dict(scn="C19", quick=6000, thorough=500000, wall_quick=120, wall_thorough=1800)],
+         "bench mode: a real node probes a scripted puppet target with 0-3 scripted helpers (PMax 2-5) and an optional scripted TCP responder; per probe the script decides "
+         "which acks/nacks come back (right/foreign/old/future sequence number; from target, helper, stranger; duplicated) and exactly when (around ProbeTimeout, 1us before/after "
+         "the awareness-scaled deadline); relay episodes ask the node to probe on a puppet's behalf with the target acking right/wrong/never around ProbeTimeout; "
+         "oracle: suspected iff no matching ack before the deadline (computed from what was delivered), relay ack/nack exactly-one rule, fresh sequence numbers, "
+         "len(ackHandlers)==0 after the deadline, health score range/direction and exact Lifeguard arithmetic when unambiguous, NotifyPingComplete RTT exact; "
+         "non-trivial = >=1 episode judged; distinct = distinct (config, episode scripts)",
+         assumptions=["encryption/label/compression are off in this bench (orthogonal; covered by C12/C14/C15)", "events placed exactly at a deadline instant are treated as ambiguous"])
+
 NOT_CLAIMED = {}
 
 SIM_NOTE = ("trusted base: Go runtime + testing/synctest fake clock, the harness (scheduler, SimNet, oracles) under /verif/sim; "
             "assumes the guarded yield sites are the relevant preemption points; seeded search, not proof")
 
 META = {
+ "C19": dict(
+    level_text="Scripted puppets place acks, nacks and TCP replies at exact virtual instants relative to ProbeTimeout and the awareness-scaled deadline; the probe outcome, relay behaviour, handler clean-up and health score are compared with a reference computed from the delivered script.",
+    design_ref="DESIGN.md §3 C19", level_note=SIM_NOTE,
+    technique="deterministic simulation (bench mode): seeded ack/nack timing scripts in virtual time vs reference probe-outcome and Lifeguard health model"),
  "C06": dict(
     level_text="Exact virtual-time comparison of the instant a real node drops a suspect against a reference Lifeguard timer, for seeded timed confirmation scripts, refutation/re-suspicion interleavings and cluster sizes; virtual time removes the 25 ms fudge of the real-time unit test and makes +-1 ns placements possible.",
     design_ref="DESIGN.md §3 C06", level_note=SIM_NOTE,
